@@ -87,7 +87,7 @@ func NewEngine(prog *ssa.Program, pkg *ssa.Package) *Engine {
 }
 
 func (e *Engine) addQuery(kind, label string, f *Term, instr ssa.Instruction) {
-	if f.IsFalse() && kind != "reach" && kind != "assert" {
+	if f.IsFalse() && kind != "reach" && kind != "assert" && kind != "lemma" {
 		return
 	}
 	q := &Query{Kind: kind, Label: label, Formula: f}
